@@ -223,12 +223,10 @@ impl TState {
                 format!("scan_file {:?} code={}", path, code)
             }
             69..=73 => {
-                // finish() without a scanned block aborts the process (known finding, kept as a
-                // probe in the corpus): here finish is only called after at least one block
-                let may_finish = !have || self.scanners[si].blocks > 0;
+                // (finish() without a scanned block used to abort the process: repaired, exercised again)
                 let code = match self.rng.below(4) {
                     0 => rec.r("yrx_scanner_scan_block", || yrx_scanner_scan_block(sc, 0, null(), 5)),
-                    1 if may_finish => { if have { self.scanners[si].blocks = 0; } rec.r("yrx_scanner_finish", || yrx_scanner_finish(sc)) }
+                    1 => { if have { self.scanners[si].blocks = 0; self.scanners[si].block = true; } rec.r("yrx_scanner_finish", || yrx_scanner_finish(sc)) }
                     _ => { if have { self.scanners[si].blocks += 1; self.scanners[si].block = true; } rec.r("yrx_scanner_scan_block", || yrx_scanner_scan_block(sc, 16, d.as_ptr(), d.len())) }
                 };
                 format!("scan_block/finish code={}", code)
@@ -316,7 +314,7 @@ impl TState {
                     rec.r("yrx_scanner_finish", || yrx_scanner_finish(s2))
                 } else { rec.r("yrx_scanner_scan", || yrx_scanner_scan(s2, d.as_ptr(), d.len())) };
                 // the scanner stays usable after the timeout
-                let code2 = if block { rec.r("yrx_scanner_scan_block", || yrx_scanner_scan_block(s2, 0, d.as_ptr(), 0)) } else { rec.r("yrx_scanner_scan", || yrx_scanner_scan(s2, null(), 0)) };
+                let code2 = if block { rec.r("yrx_scanner_finish", || yrx_scanner_finish(s2)) } else { rec.r("yrx_scanner_scan", || yrx_scanner_scan(s2, null(), 0)) };
                 rec.o("yrx_scanner_destroy", || yrx_scanner_destroy(s2));
                 rec.o("yrx_rules_destroy", || yrx_rules_destroy(rules));
                 format!("timeout scan block={} code={} again={}", block, code, code2)
